@@ -44,31 +44,9 @@ def quara_basis_matrices(c_sys):
 
 
 def _rep(a, tag):
-    """the same values in another, equally valid, in-memory representation, chosen as a pure function of the values:
-    canonical / strided (non-contiguous) view / Fortran-ordered (2-d) / read-only.  Every check that builds its objects
-    through make() therefore also exercises the library on non-canonical arrays (VERIF_REPS=0 switches this off)."""
-    import hashlib
-    import os
+    from harness import reps
 
-    if os.environ.get("VERIF_REPS", "1") == "0" or a.size == 0:
-        return a
-    h = hashlib.sha256(a.tobytes() + tag.encode()).digest()[0] % 6
-    if h <= 2:
-        return a
-    if h == 3:  # strided view into a larger buffer
-        if a.ndim == 1:
-            big = np.zeros(2 * a.size, dtype=a.dtype)
-            v = big[::2]
-        else:
-            big = np.zeros((a.shape[0], 2 * a.shape[1]), dtype=a.dtype)
-            v = big[:, ::2]
-        v[...] = a
-        return v
-    if h == 4:
-        return np.asfortranarray(a) if a.ndim == 2 else a
-    b = a.copy()
-    b.flags.writeable = False
-    return b
+    return reps.arr(a, tag)
 
 
 def make(c_sys, typ, stacked, m=None, **kw):
@@ -79,6 +57,10 @@ def make(c_sys, typ, stacked, m=None, **kw):
     from quara.objects.state import State
 
     kw.setdefault("is_physicality_required", False)
+    from harness import reps
+
+    # the flag as Python bool / numpy bool / int (the values decide; see harness/reps.py)
+    kw["is_physicality_required"] = reps.flag(kw["is_physicality_required"], typ + str(np.asarray(stacked).size))
     _mshape = kw.pop("mshape", None)
     stacked = np.ascontiguousarray(np.asarray(stacked, dtype=np.float64))
     n = c_sys.dim ** 2
